@@ -486,7 +486,8 @@ pub fn run(id: &str, tier: Tier) -> i32 {
     }
 
     // supervisor-side post pass (sanitizer builds etc.)
-    if let Some(out) = prop.post(&ctx) {
+    let no_post = std::env::var_os("VERIF_NO_POST").is_some();
+    if let Some(out) = if no_post { None } else { prop.post(&ctx) } {
         let vs = acc.merge(out);
         acc.cases -= 1;
         violations.extend(vs);
